@@ -1,11 +1,13 @@
 --------------------------- MODULE CondSyntax ---------------------------
 (* C17 - condition parsing and building are total and type-checked.                 *)
 (*                                                                                  *)
-(* Three input spaces (constant Mode), each with the verdict Layer P dictates:       *)
-(*   "raw"    every token string over the abstract alphabet up to MaxLen              *)
+(* Four input spaces (variable mode, chosen from constant Modes), each with the       *)
+(* verdict Layer P dictates:                                                         *)
+(*   "raw"    every token string over the abstract alphabet up to MaxRaw              *)
 (*   "guided" grammar-directed token strings (viable prefixes) with up to MaxDev      *)
-(*            arbitrary deviations, up to MaxLen (longer than "raw" can afford)       *)
-(*   "chars"  every character string over a small byte alphabet up to MaxLen;         *)
+(*            arbitrary deviations, up to MaxGuided (longer than "raw" can afford)    *)
+(*   "plain"  grammar-directed token strings without deviation, up to MaxPlain        *)
+(*   "chars"  every character string over a small byte alphabet up to MaxChars;       *)
 (*            verdict is the set {ok, error} ("any"): totality only                   *)
 (* (argument shapes of calls: module CondCalls)                                       *)
 (*                                                                                  *)
@@ -24,7 +26,7 @@
 (* unresolved variables) as a rewriting system, independent of the recursive descent.  *)
 EXTENDS Integers, Sequences, FiniteSets, TLC
 
-CONSTANTS Mode, MaxLen, MaxDev
+CONSTANTS Modes, MaxRaw, MaxGuided, MaxDev, MaxPlain, MaxChars
 
 Idents == {"K1", "K0", "KX"}
 Lits   == {"S", "B", "I"}
@@ -124,14 +126,16 @@ VerdictM(ts) ==
   ELSE LET f == Reduce(Collapse(ts, 1, <<>>)) IN IF f = <<"E">> THEN "ok" ELSE "error"
 
 ------------------------------------------------------------------------
-VARIABLES toks,     \* the string so far
-          st, d,    \* guided mode: parser situation and open group parentheses
-          dev       \* guided mode: deviations used
-vars == <<toks, st, d, dev>>
+VARIABLES mode,     \* which input space this behaviour enumerates
+          toks,     \* the string so far
+          st, d,    \* guided / plain: parser situation and open group parentheses
+          dev       \* guided: deviations used
+vars == <<mode, toks, st, d, dev>>
 
-Alphabet == IF Mode = "chars" THEN CharAlphabet ELSE TokAlphabet
+MaxLen == CASE mode = "raw" -> MaxRaw [] mode = "guided" -> MaxGuided [] mode = "plain" -> MaxPlain [] mode = "chars" -> MaxChars
+Alphabet == IF mode = "chars" THEN CharAlphabet ELSE TokAlphabet
 
-\* guided mode: tokens the grammar allows next in situation s, with the situation they lead to
+\* guided modes: tokens the grammar allows next in situation s, with the situation they lead to
 \*   E operand expected; A after an operand; I after an identifier; C0 after the "(" of a call;
 \*   CL after a literal in a call; CC after a comma in a call
 Viable(s, dd) ==
@@ -144,19 +148,19 @@ Viable(s, dd) ==
     [] s = "CC" -> {<<t, "CL", dd>> : t \in Lits}
 Situations == {"E", "A", "I", "C0", "CL", "CC"}
 
-Init == toks = <<>> /\ st = "E" /\ d = 0 /\ dev = 0
-NextRaw == /\ Len(toks) < MaxLen
+Init == mode \in Modes /\ toks = <<>> /\ st = "E" /\ d = 0 /\ dev = 0
+NextRaw == /\ mode \in {"raw", "chars"}
            /\ \E t \in Alphabet : toks' = Append(toks, t)
            /\ UNCHANGED <<st, d, dev>>
 NextGuided ==
-  /\ Len(toks) < MaxLen
+  /\ mode \in {"guided", "plain"}
   /\ \/ \E v \in Viable(st, d) : toks' = Append(toks, v[1]) /\ st' = v[2] /\ d' = v[3] /\ dev' = dev
-     \/ /\ dev < MaxDev
+     \/ /\ mode = "guided" /\ dev < MaxDev
         /\ \E t \in TokAlphabet : t \notin {v[1] : v \in Viable(st, d)} /\ toks' = Append(toks, t)
         /\ st' \in {st, "E", "A"} /\ d' = d /\ dev' = dev + 1    \* inserted / substituted token
-Next == IF Mode = "guided" THEN NextGuided ELSE NextRaw
+Next == Len(toks) < MaxLen /\ (NextRaw \/ NextGuided) /\ UNCHANGED mode
 
-Verdict == IF Mode = "chars" THEN "any" ELSE VerdictP(toks)
-MSatisfiesP == Mode # "chars" => VerdictM(toks) = VerdictP(toks)
-TypeOK == toks \in Seq(Alphabet) /\ st \in Situations /\ d \in 0..MaxLen /\ dev \in 0..MaxDev
+Verdict == IF mode = "chars" THEN "any" ELSE VerdictP(toks)
+MSatisfiesP == mode # "chars" => VerdictM(toks) = VerdictP(toks)
+TypeOK == mode \in Modes /\ toks \in Seq(Alphabet) /\ st \in Situations /\ d \in 0..MaxLen /\ dev \in 0..MaxDev
 ========================================================================
